@@ -67,6 +67,8 @@ def run(rep, ctx):
         SR.centring_matrices(rep, M, T, "R12.1")
     with rep.guard("R12.2"):
         SR.primitive_conversion(rep, M, "R12.2")
+        from . import c05 as _c05
+        _c05.r05_5b(rep, M, "R12.2")
     with rep.guard("R12.3"):
         SR.index_spaces(rep, M, "R12.3")
     with rep.guard("R12.4"):
